@@ -12,8 +12,8 @@ Definition C10_refines_full_statement : Prop := forall h,
   zombie_free ainit h = true ->
   exists st', run init_state h = Some (st', snd (arun ainit h)) /\ R st' (fst (arun ainit h)).
 
-(* Proved for all histories over Init, PushFront, PushBack, Remove, InsertBefore, InsertAfter, MoveToFront and
-   MoveAfter ([covered]); MoveToBack, MoveBefore, PushBackList and PushFrontList are tied to container/list
+(* Proved for all histories over Init, PushFront, PushBack, Remove, InsertBefore, InsertAfter, MoveToFront,
+   MoveToBack and MoveAfter ([covered]); MoveBefore, PushBackList and PushFrontList are tied to container/list
    by the correspondence check only (see notes/C10.md). *)
 Theorem C10_refines_partial : forall h,
   forallb covered h = true -> zombie_free ainit h = true ->
